@@ -202,7 +202,14 @@ def run(ctx):
             path = os.path.join(tmp, "w%d.spec%s" % (k, ".gz" if gz else ""))
             ctx.case(("swan", k, str(layout), ntime, gz), True)
             try:
-                ds.spec.to_swan(path, ntime=ntime)
+                # every fifth dataset is handed to the writer with dir stored before freq: same labelled contents, other storage
+                dsw = ds
+                if k % 5 == 2:
+                    dd_ = list(ds.efth.dims)
+                    i_, j_ = dd_.index("freq"), dd_.index("dir")
+                    dd_[i_], dd_[j_] = dd_[j_], dd_[i_]
+                    dsw = ds.transpose(*dd_)
+                dsw.spec.to_swan(path, ntime=ntime)
                 text = (gzip.open(path, "rt") if gz else open(path)).read()
                 recs = lex_swan.lex(text)
             except Exception as ex:  # noqa
